@@ -116,3 +116,24 @@ func TestC12CompileErrorReport(t *testing.T) {
 		c12Expect(t, fmt.Sprintf("crlf script %d", i), s, nil)
 	}
 }
+
+func TestC12NullNumberVariable(t *testing.T) {
+	c12Expect(t, "number variable given as JSON null, used in arithmetic", `
+vars {
+	number $n
+}
+set_tx_meta("k", $n + 1)
+send [USD/2 1] (
+	source = @alice
+	destination = @bob
+)`, map[string]string{"n": "null"})
+	c12Expect(t, "number variable given as JSON null, stored as metadata", `
+vars {
+	number $n
+}
+set_tx_meta("k", $n)
+send [USD/2 1] (
+	source = @alice
+	destination = @bob
+)`, map[string]string{"n": "null"})
+}
